@@ -46,7 +46,12 @@ META = {
         "registries, not the document-wide name table; (R7) the settings the transforms read are written unconditionally "
         "by the renderer from the same-named config fields; (R8) the label order key is total (one comparable kind, or "
         "every creatable manual label converts with int()); (R9) the footnote transition is only attached where docutils "
-        "allows a transition (not first, not next to another transition)."
+        "allows a transition (not first, not next to another transition); (R10) SortFootnotes ranks a footnote by the "
+        "position of its FIRST reference (list.index / first-wins table, never a last-wins table over autofootnote_refs). "
+        "R4 also requires the sorter's re-ordering and the collector's gathering to be permutations of the registries "
+        "(no filtered rebuild, no skipped entry); R6 also requires the duplicate test to cover both definition registries "
+        "and everything it reads (registry entry, name) to be stored before the footnote body is rendered, where a nested "
+        "duplicate can occur."
     ),
     "not_decided": "numbering as a function of the arrangement (computed by docutils' Footnotes transform at run time); behaviour of rST footnotes created inside eval-rst",
     "trusted_base": ["CPython ast", "docutils/transforms/references.py and mdit_py_plugins/footnote/index.py as installed", "mystsa CFG/path counting"],
@@ -187,6 +192,30 @@ class Events:
         a = self.count(kind, ENTRY, edge)
         b = self.count(kind, edge, EXIT)
         return {min(2, x + y) for x in a for y in b}
+
+    def paths(self, kind: str, start, stop, avoid=(), must=()) -> set[int]:
+        """Event counts (saturating at 2) over the paths start -> stop that touch no node in ``avoid``
+        and (if ``must`` is given) at least one node in ``must``."""
+        w = self._weight(kind)
+        avoid, must = set(avoid), set(must)
+        vals: dict[tuple, set[int]] = {}
+        s0 = (start, (not must) or start in must)
+        vals[s0] = {min(2, w(start))}
+        work = [s0]
+        while work:
+            st = work.pop()
+            node, flag = st
+            if node == stop and node != start:
+                continue
+            for nx in self.cfg.succ.get(node, []):
+                if nx in avoid:
+                    continue
+                ns = (nx, flag or nx in must)
+                new = {min(2, c + w(nx)) for c in vals[st]}
+                if not new <= vals.get(ns, set()):
+                    vals.setdefault(ns, set()).update(new)
+                    work.append(ns)
+        return set(vals.get((stop, True), set()))
 
 
 def _fmt(s: set[int]) -> str:
@@ -499,13 +528,27 @@ def _classifier(fi: FunctionInfo):
             found.append((n, t.func.attr, pol))
         elif any(isinstance(x, ast.expr) and not isinstance(x, ast.Compare) and _is_label_use_in_call(fi, x) for x in ast.walk(n.test)):
             raise Unsupported(f"{fi.module.site(n)}: label classified by `{short(n.test, 60)}` (not a plain str predicate of the label)")
-    if len(found) != 1:
-        raise Unsupported(f"{fi.qualname}: expected exactly one branch on a predicate of the label, found {len(found)}")
+    if not found:
+        raise Unsupported(f"{fi.qualname}: no branch on a predicate of the label")
+    preds = {p for _, p, _ in found}
+    if len(preds) != 1:
+        raise Unsupported(f"{fi.qualname}: the label is classified by different predicates in one function: {sorted(preds)}")
+    found.sort(key=lambda x: x[0].lineno)
     n, pred, pol = found[0]
     if pred not in DIGIT_PREDICATES:
         raise Unsupported(f"{fi.module.site(n)}: label predicate .{pred}() is not one of {sorted(DIGIT_PREDICATES)}")
-    t_edge, f_edge = ("T", n), ("F", n)
-    return n, pred, (t_edge if pol else f_edge), (f_edge if pol else t_edge)
+    # the label is never re-bound, so all these branches agree on one run: a manual path takes the
+    # manual edge of each and none of the auto edges
+    man = [("T" if pol_ else "F", n_) for n_, _, pol_ in found]
+    auto = [("F" if pol_ else "T", n_) for n_, _, pol_ in found]
+    return n, pred, Side("manual", man, auto), Side("auto", auto, man)
+
+
+class Side:
+    """The CFG paths of one classification: pass at least one of ``must`` edges, none of ``avoid``."""
+
+    def __init__(self, name: str, must: list, avoid: list):
+        self.name, self.must, self.avoid = name, must, avoid
 
 
 def _is_label_use_in_call(fi: FunctionInfo, x: ast.expr) -> bool:
@@ -518,11 +561,11 @@ def _is_label_use_in_call(fi: FunctionInfo, x: ast.expr) -> bool:
     return any(_is_label(fi, o) for o in ops)
 
 
-def _expect(rep: Report, fi: FunctionInfo, ev: Events, kind: str, edge, want: set[int], side: str, what: str, why: str) -> None:
-    got = ev.via(kind, edge)
+def _expect(rep: Report, fi: FunctionInfo, ev: Events, kind: str, sd: "Side", want: set[int], side: str, what: str, why: str) -> None:
+    got = ev.paths(kind, ENTRY, EXIT, avoid=sd.avoid, must=sd.must)
     key = f"{fi.fq}|{side}|{what}"
     nodes = ev.nodes(kind)
-    site = fi.module.site(nodes[0]) if nodes else fi.module.site(edge[1])
+    site = fi.module.site(nodes[0]) if nodes else fi.module.site(sd.must[0][1])
     if not got:
         raise Unsupported(f"{fi.qualname}: the {side} branch is unreachable in the CFG")
     if got == want:
@@ -785,6 +828,45 @@ def r6_duplicate_test_registry_kind(corpus: Corpus, rep: Report, tier: str):
         rep.ok("C11.R6", key, site, f"derived from document.{', '.join(regs)}")
     else:
         raise Unsupported(f"{site}: container of the duplicate test not understood: {short(atom, 70)}")
+    # (b) both kinds of definitions are covered
+    if regs:
+        for reg, kind in (("footnotes", "manually numbered"), ("autofootnotes", "auto-numbered")):
+            key = f"{fi.fq}|duplicate test|covers document.{reg}"
+            if reg in attrs:
+                rep.ok("C11.R6", key, site)
+            else:
+                rep.violation("C11.R6", key, site, f"the duplicate test does not look at document.{reg}: a second definition of a {kind} label is not recognised, docutils moves both names to dupnames and the references to the first definition no longer resolve")
+    # (c) what the test looks at is in place before the footnote body is rendered (a duplicate can be nested in the body)
+    _, _, d_man, d_auto = _classifier(fi)
+    ev, var = _scan_def(fi)
+    reads_names = any(isinstance(x, ast.Subscript) and isinstance(x.slice, ast.Constant) and x.slice.value in ("names", "dupnames") for x in ast.walk(atom))
+    feeders = {"manual": [], "auto": []}
+    if "footnotes" in attrs:
+        feeders["manual"].append(("note_fn", "note_footnote(footnote)"))
+    if "autofootnotes" in attrs:
+        feeders["auto"].append(("note_autofn", "note_autofootnote(footnote)"))
+    if attrs & {"nameids", "nametypes"}:
+        feeders["manual"].append(("note_target", "note_explicit_target(footnote, ...)"))
+        feeders["auto"].append(("note_target", "note_explicit_target(footnote, ...)"))
+    if reads_names and regs:
+        feeders["manual"].append(("names", "footnote['names'] gets the label"))
+        feeders["auto"].append(("names", "footnote['names'] gets the label"))
+    bodies = ev.nodes("body")
+    if not bodies:
+        raise Unsupported(f"{fi.qualname}: no self.render_children(token) found")
+    for side, edge in (("manual", d_man), ("auto", d_auto)):
+        for kind, text in feeders[side]:
+            key = f"{fi.fq}|duplicate test|{side}|{text} before the body is rendered"
+            bad = None
+            for b in bodies:
+                bst = ev.cfg.stmt_of(b)
+                got = ev.paths(kind, ENTRY, bst, avoid=edge.avoid)
+                if 0 in got:
+                    bad = b
+            if bad is None:
+                rep.ok("C11.R6", key, fi.module.site(bodies[0]))
+            else:
+                rep.violation("C11.R6", key, fi.module.site(bad), f"on {side} paths the body of the definition is rendered before `{text}`: a duplicate definition nested in that body (`[^a]: outer` with an indented `[^a]: inner`) is not seen by the duplicate test `{short(atom, 60)}`, both definitions get registered and the references to the label no longer resolve")
     rep.expect_min("C11.R6", 1, "the one duplicate test")
 
 
@@ -860,6 +942,66 @@ def _collector_parts(fi: FunctionInfo):
     return move
 
 
+def _is_registry_view(fi: FunctionInfo, e: ast.expr, reg: str):
+    """How ``e`` relates to ``document.<reg>``: 'all' (the registry, a copy of it, or an unfiltered
+    comprehension of its elements), 'filtered' (a comprehension with a condition), None (unrelated)."""
+    e = _deref(fi, e)
+    if _doc_attr(e, reg):
+        return "all"
+    if isinstance(e, ast.Subscript) and _doc_attr(e.value, reg) and isinstance(e.slice, ast.Slice) and e.slice.lower is None and e.slice.upper is None and e.slice.step is None:
+        return "all"
+    if isinstance(e, ast.Call) and dotted(e.func) in ("list", "tuple", "iter") and len(e.args) == 1 and not e.keywords:
+        return _is_registry_view(fi, e.args[0], reg)
+    if isinstance(e, (ast.GeneratorExp, ast.ListComp)) and len(e.generators) == 1:
+        g = e.generators[0]
+        inner = _is_registry_view(fi, g.iter, reg)
+        if inner is None:
+            return None
+        if not (isinstance(g.target, ast.Name) and _is_name(e.elt, g.target.id)):
+            raise Unsupported(f"{fi.module.site(e)}: document.{reg} is mapped through `{short(e.elt, 40)}` before sorting")
+        return "filtered" if (g.ifs or inner == "filtered") else "all"
+    if any(_doc_attr(x, reg) for x in ast.walk(e)):
+        raise Unsupported(f"{fi.module.site(e)}: view of document.{reg} not understood: {short(e, 60)}")
+    return None
+
+
+def _sorter_model(sf: FunctionInfo) -> list[tuple[ast.AST, ast.expr | None, str | None]]:
+    """[(sort construct, key expression, problem | None)] for every re-ordering of document.autofootnotes."""
+    REG = "autofootnotes"
+    out: list[tuple[ast.AST, ast.expr | None, str | None]] = []
+    for n in sf.local_nodes():
+        if isinstance(n, ast.Call) and isinstance(n.func, ast.Attribute) and n.func.attr == "sort" and _doc_attr(n.func.value, REG):
+            out.append((n, kwarg(n, "key"), None))
+        elif isinstance(n, (ast.Assign, ast.AugAssign)):
+            targets = n.targets if isinstance(n, ast.Assign) else [n.target]
+            hit = [t for t in targets if _doc_attr(t, REG) or (isinstance(t, ast.Subscript) and _doc_attr(t.value, REG))]
+            if not hit:
+                continue
+            t = hit[0]
+            if isinstance(n, ast.AugAssign) or (isinstance(t, ast.Subscript) and not (isinstance(t.slice, ast.Slice) and t.slice.lower is None and t.slice.upper is None)):
+                raise Unsupported(f"{sf.module.site(n)}: partial rewrite of document.{REG}")
+            v = n.value
+            if not (isinstance(v, ast.Call) and dotted(v.func) == "sorted" and v.args):
+                raise Unsupported(f"{sf.module.site(n)}: document.{REG} rebuilt from `{short(v, 50)}` (not sorted(...))")
+            view = _is_registry_view(sf, v.args[0], REG)
+            if view is None:
+                raise Unsupported(f"{sf.module.site(n)}: document.{REG} rebuilt from something else than itself")
+            problem = None
+            if view == "filtered":
+                problem = f"rebuilds document.{REG} from a filtered view of itself: the footnotes that fail the condition leave the registry, docutils never labels them and the collector never moves them (the re-ordering must be a permutation)"
+            out.append((n, kwarg(v, "key"), problem))
+        elif isinstance(n, ast.Call) and dotted(n.func) == "sorted" and n.args and isinstance(parent(n), ast.Expr):
+            try:
+                view = _is_registry_view(sf, n.args[0], REG)
+            except Unsupported:
+                view = None
+            if view is not None:
+                out.append((n, kwarg(n, "key"), f"sorts a copy of document.{REG} and discards it: docutils numbers the registry in definition order, not in order of first reference"))
+    if not out:
+        raise Unsupported("SortFootnotes.apply: no re-ordering of document.autofootnotes found")
+    return out
+
+
 @rule("C11.R4")
 def r4_collector(corpus: Corpus, rep: Report, tier: str):
     rep.rule("C11.R4", "collector: guarded by myst_footnote_sort only; gathers footnotes+autofootnotes; each moved once (detach, then attach to the document) in ascending key order; one transition under myst_footnote_transition, attached to the document before the footnotes; sorter sorts autofootnotes once")
@@ -920,17 +1062,35 @@ def r4_collector(corpus: Corpus, rep: Report, tier: str):
     if not isinstance(gathered, ast.Name):
         raise Unsupported(f"{site}: sorted() is not applied to a local list")
     fills = [n for n in fi.local_nodes() if isinstance(n, ast.Call) and isinstance(n.func, ast.Attribute) and n.func.attr in ("append", "extend") and _is_name(n.func.value, gathered.id)]
+    init = _single_assign(fi, gathered.id)
     srcs: set[str] = set()
     for f_ in fills:
         for a in ancestors(f_):
             if isinstance(a, ast.For):
                 srcs |= {x.attr for x in ast.walk(a.iter) if isinstance(x, ast.Attribute) and _doc_attr(x, x.attr)}
                 break
-    init = _single_assign(fi, gathered.id)
     if init is not None:
         srcs |= {x.attr for x in ast.walk(init) if isinstance(x, ast.Attribute) and _doc_attr(x, x.attr)}
     if not srcs:
         raise Unsupported(f"{fi.qualname}: cannot see which document registries feed `{gathered.id}`")
+    for f_ in fills:
+        gl = next((a for a in ancestors(f_) if isinstance(a, ast.For)), None)
+        if gl is None:
+            continue
+        gev = Events(fi)
+        gev.add("fill", f_)
+        c_fill = set(cfg.counts(("T", gl), [gl], gev._weight("fill")).get(gl, set()))
+        key = f"{fi.fq}|gathers every footnote of the registries once"
+        extra = [t for t, _p in cfg.guards(cfg.stmt_of(f_)) if not any(t is t2 for t2, _q in cfg.guards(gl))]
+        if c_fill == {1}:
+            rep.ok("C11.R4", key, fi.module.site(gl))
+        elif c_fill == {0, 1} and extra and all(any(isinstance(x, ast.Attribute) and x.attr == "parent" for x in ast.walk(t)) for t in extra):
+            rep.assumed("C11.R4", key, fi.module.site(gl), "only footnotes without a parent (detached from the tree) are skipped")
+        else:
+            rep.violation("C11.R4", key, fi.module.site(gl), f"per registry entry the footnote is put on the list to move {_fmt(c_fill)} time(s): a skipped definition stays where written although footnote_sort is on")
+    for cmp_ in [x for f_ in fills for a in ancestors(f_) if isinstance(a, ast.For) for x in ast.walk(a.iter) if isinstance(x, (ast.GeneratorExp, ast.ListComp))] + ([init] if isinstance(init, (ast.ListComp, ast.GeneratorExp)) else []):
+        if any(g.ifs for g in cmp_.generators):
+            rep.violation("C11.R4", f"{fi.fq}|gathers every footnote of the registries once", fi.module.site(cmp_), "the registries are filtered before collecting: a skipped definition stays where written although footnote_sort is on")
     for reg in ("footnotes", "autofootnotes"):
         key = f"{fi.fq}|gathers document.{reg}"
         if reg in srcs:
@@ -983,43 +1143,39 @@ def r4_collector(corpus: Corpus, rep: Report, tier: str):
         else:
             rep.ok("C11.R4", key, fi.module.site(r))
 
-    # (g) SortFootnotes: with sorting on, document.autofootnotes is sorted in place exactly once
+    # (g) SortFootnotes: with sorting on, document.autofootnotes is permuted in place exactly once
     sf = corpus.func(f"{TRANS}:SortFootnotes.apply")
     rep.saw_function(sf.fq)
+    model = _sorter_model(sf)
     sev = Events(sf)
-    for n in sf.local_nodes():
-        if isinstance(n, ast.Call) and isinstance(n.func, ast.Attribute) and n.func.attr == "sort" and _doc_attr(n.func.value, "autofootnotes"):
-            sev.add("sort", n)
-        if isinstance(n, ast.Assign) and any(_doc_attr(t, "autofootnotes") for t in n.targets):
-            sev.add("sort", n)
-    if not sev.nodes("sort"):
-        copies = [n for n in sf.local_nodes() if isinstance(n, ast.Call) and dotted(n.func) == "sorted" and n.args and _doc_attr(n.args[0], "autofootnotes") and isinstance(parent(n), ast.Expr)]
-        if copies:
-            rep.violation("C11.R4", f"{sf.fq}|sorts document.autofootnotes", sf.module.site(copies[0]), "SortFootnotes sorts a copy of document.autofootnotes and discards it: docutils numbers the registry in definition order, not in order of first reference")
-            return
-        raise Unsupported("SortFootnotes.apply: no in-place sort of document.autofootnotes found")
-    for sn in sev.nodes("sort"):
+    for sn, _k, _v in model:
+        sev.add("sort", sn)
+    for sn, kexpr, verdict in model:
         st = sev.cfg.stmt_of(sn)
         problems, desc = _judge_guards(sf, st, {"myst_footnote_sort": True})
         problems = [p for p in problems if "is not guarded" not in p]  # sorting unconditionally would still satisfy the property
         key = f"{sf.fq}|sorts document.autofootnotes"
-        rv = kwarg(sn, "reverse") if isinstance(sn, ast.Call) else None
+        if verdict is not None:
+            problems.append(verdict)
+        call = sn if isinstance(sn, ast.Call) else (sn.value if isinstance(sn, ast.Assign) else None)
+        rv = kwarg(call, "reverse") if isinstance(call, ast.Call) else None
         if rv is not None and not (isinstance(rv, ast.Constant) and rv.value is False):
             problems.append("sorts in reverse reference order")
-        if isinstance(sn, ast.Call):
-            k = kwarg(sn, "key")
-            if k is None:
-                problems.append("sorts footnote nodes without a key")
-            else:
-                kf = sf.module.functions.get(f"{sf.qualname}.{k.id}") if isinstance(k, ast.Name) else None
-                src = list(ast.walk(kf.node)) + list(sf.local_nodes()) if kf is not None else list(sf.local_nodes())
-                if not any(_doc_attr(x, "autofootnote_refs") for x in src):
-                    problems.append("the order does not derive from document.autofootnote_refs (the references in document order)")
+        if kexpr is None:
+            problems.append("sorts footnote nodes without a key")
+        else:
+            kf = sf.module.functions.get(f"{sf.qualname}.{kexpr.id}") if isinstance(kexpr, ast.Name) else getattr(kexpr, "_fi", None)
+            src = (list(ast.walk(kf.node)) if kf is not None else []) + list(sf.local_nodes())
+            if not any(_doc_attr(x, "autofootnote_refs") for x in src):
+                problems.append("the order does not derive from document.autofootnote_refs (the references in document order)")
         if problems:
             rep.violation("C11.R4", key, sf.module.site(sn), "SortFootnotes " + "; ".join(problems))
         else:
             rep.ok("C11.R4", key, sf.module.site(sn), " and ".join(desc))
-    c_sort = sev.count("sort", ENTRY)
+    if any(v is not None and "discards" in v for _, _, v in model):
+        c_sort = {1}
+    else:
+        c_sort = sev.count("sort", ENTRY)
     key = f"{sf.fq}|sorts once when enabled"
     if 1 in c_sort and c_sort <= {0, 1}:
         rep.ok("C11.R4", key, sf.site(), f"counts {_fmt(c_sort)} (0 = sorting disabled)")
@@ -1060,6 +1216,16 @@ def _kind(fi: FunctionInfo, e: ast.expr, depth: int = 0):
             return "str"
     if isinstance(e, ast.JoinedStr):
         return "str"
+    if isinstance(e, ast.Subscript) or (isinstance(e, ast.Call) and isinstance(e.func, ast.Attribute) and e.func.attr == "get" and e.args):
+        cont = e.value if isinstance(e, ast.Subscript) else e.func.value
+        vk = _dict_value_kind(fi, cont)
+        if vk is not None:
+            if isinstance(e, ast.Call) and len(e.args) == 2:
+                dk = _kind(fi, e.args[1], depth + 1)
+                return vk if dk == vk else ("mixed", vk, dk)
+            if isinstance(e, ast.Call) and len(e.args) == 1:
+                raise Unsupported(f"`{short(e, 40)}` may yield None as a sort key")
+            return vk
     if isinstance(e, ast.IfExp):
         a, b = _kind(fi, e.body, depth + 1), _kind(fi, e.orelse, depth + 1)
         if a == b:
@@ -1091,6 +1257,67 @@ def _kind(fi: FunctionInfo, e: ast.expr, depth: int = 0):
                                     return parts[names.index(e.id)]
         raise Unsupported(f"kind of local {e.id} in {fi.qualname}")
     raise Unsupported(f"kind of `{short(e, 50)}` in {fi.qualname}")
+
+
+def _binding(fi: FunctionInfo, name: str):
+    """(function, value expr, annotation) of the single binding of ``name`` in ``fi`` or an enclosing function."""
+    f = fi
+    while f is not None:
+        if name in f.params:
+            return None
+        anns = [n for n in f.local_nodes() if isinstance(n, ast.AnnAssign) and _is_name(n.target, name)]
+        v = _single_assign(f, name)
+        if v is not None:
+            return f, v, (anns[0].annotation if anns else None)
+        f = f.parent_func
+    return None
+
+
+def _dict_value_kind(fi: FunctionInfo, cont: ast.expr):
+    """Kind of the values of a local dict (annotation ``dict[K, V]`` or a dict comprehension over enumerate())."""
+    if not isinstance(cont, ast.Name):
+        return None
+    b = _binding(fi, cont.id)
+    if b is None:
+        return None
+    f, v, ann = b
+    t = _ann_text(ann)
+    if t.startswith("dict[") and t.endswith("]"):
+        parts = _split_top(t[5:-1])
+        if len(parts) == 2 and parts[1] in ("int", "str"):
+            return parts[1]
+    if isinstance(v, ast.DictComp):
+        idx = _enumerate_index_names(v.generators)
+        if isinstance(v.value, ast.Name) and v.value.id in idx:
+            return "int"
+        if isinstance(v.value, ast.Constant):
+            return _kind(f, v.value)
+    if (isinstance(v, ast.Dict) and not v.keys) or (isinstance(v, ast.Call) and dotted(v.func) == "dict" and not v.args and not v.keywords):
+        # filled by stores: the kinds of all stored values
+        kinds = set()
+        loop_idx = _enumerate_index_names([n for n in f.local_nodes() if isinstance(n, ast.For)])
+        for n in f.local_nodes():
+            val = None
+            if isinstance(n, ast.Assign) and len(n.targets) == 1 and isinstance(n.targets[0], ast.Subscript) and _is_name(n.targets[0].value, cont.id):
+                val = n.value
+            elif isinstance(n, ast.Call) and isinstance(n.func, ast.Attribute) and n.func.attr == "setdefault" and _is_name(n.func.value, cont.id) and len(n.args) == 2:
+                val = n.args[1]
+            if val is not None:
+                kinds.add("int" if isinstance(val, ast.Name) and val.id in loop_idx else _kind(f, val))
+        if len(kinds) == 1:
+            return kinds.pop()
+    return None
+
+
+def _enumerate_index_names(generators) -> set[str]:
+    out = set()
+    for g in generators:
+        it = g.iter
+        while isinstance(it, ast.Call) and dotted(it.func) in ("reversed", "list", "tuple") and len(it.args) == 1:
+            it = it.args[0]
+        if isinstance(it, ast.Call) and dotted(it.func) == "enumerate" and isinstance(g.target, ast.Tuple) and g.target.elts and isinstance(g.target.elts[0], ast.Name):
+            out.add(g.target.elts[0].id)
+    return out
 
 
 def _split_top(s: str) -> list[str]:
@@ -1147,9 +1374,9 @@ def r8_total_order_key(corpus: Corpus, rep: Report, tier: str):
     if isinstance(loop.iter, ast.Call) and kwarg(loop.iter, "key") is not None:
         sites.append((cf, kwarg(loop.iter, "key")))
     sf = corpus.func(f"{TRANS}:SortFootnotes.apply")
-    for n in sf.local_nodes():
-        if isinstance(n, ast.Call) and isinstance(n.func, ast.Attribute) and n.func.attr == "sort" and kwarg(n, "key") is not None:
-            sites.append((sf, kwarg(n, "key")))
+    for _sn, kexpr_, _v in _sorter_model(sf):
+        if kexpr_ is not None:
+            sites.append((sf, kexpr_))
     for fi, kexpr in sites:
         kf = _key_function(fi, kexpr)
         rep.saw_function(kf.fq)
@@ -1231,6 +1458,131 @@ def r9_transition_placement(corpus: Corpus, rep: Report, tier: str):
     rep.expect_min("C11.R9", 2, "not-first and not-adjacent")
 
 
+# ---------------------------------------------------------------------------
+# R10 - auto-numbered footnotes are ranked by their FIRST reference
+
+
+def _refs_in_document_order(fi: FunctionInfo, it: ast.expr) -> str | None:
+    """'fwd' if ``it`` enumerates document.autofootnote_refs front to back, 'rev' back to front."""
+    direction = "fwd"
+    while True:
+        if isinstance(it, ast.Call) and dotted(it.func) in ("list", "tuple", "iter") and len(it.args) == 1:
+            it = it.args[0]
+        elif isinstance(it, ast.Call) and dotted(it.func) == "enumerate" and it.args:
+            it = it.args[0]
+        elif isinstance(it, ast.Call) and dotted(it.func) == "reversed" and len(it.args) == 1:
+            direction = "rev" if direction == "fwd" else "fwd"
+            it = it.args[0]
+        else:
+            break
+    it = _deref(fi, it)
+    if _doc_attr(it, "autofootnote_refs"):
+        return direction
+    return None
+
+
+def _is_refname_of(e: ast.expr, var: str) -> bool:
+    return isinstance(e, ast.Subscript) and _is_name(e.value, var) and isinstance(e.slice, ast.Constant) and e.slice.value == "refname"
+
+
+def _occurrence_picked(kf: FunctionInfo, e: ast.expr) -> tuple[str, ast.AST]:
+    """Which reference of a repeated label the rank expression ``e`` selects: ('first'|'last', construct)."""
+    # L.index(x): first occurrence in L
+    if isinstance(e, ast.Call) and isinstance(e.func, ast.Attribute) and e.func.attr == "index" and len(e.args) == 1 and isinstance(e.func.value, ast.Name):
+        b = _binding(kf, e.func.value.id)
+        if b is None:
+            raise Unsupported(f"{kf.qualname}: `{e.func.value.id}` has no single binding")
+        f, v, _ = b
+        if isinstance(v, ast.ListComp) and len(v.generators) == 1 and isinstance(v.generators[0].target, ast.Name) and _is_refname_of(v.elt, v.generators[0].target.id):
+            d = _refs_in_document_order(f, v.generators[0].iter)
+            if d is None:
+                raise Unsupported(f"{f.module.site(v)}: the label list is not built from document.autofootnote_refs")
+            return ("first" if d == "fwd" else "last"), v
+        raise Unsupported(f"{f.module.site(v)}: label list `{short(v, 50)}` not understood")
+    # D[x] / D.get(x, default): whatever the dict construction kept for a repeated key
+    cont = None
+    if isinstance(e, ast.Subscript) and isinstance(e.value, ast.Name):
+        cont = e.value
+    elif isinstance(e, ast.Call) and isinstance(e.func, ast.Attribute) and e.func.attr == "get" and isinstance(e.func.value, ast.Name):
+        cont = e.func.value
+    if cont is not None:
+        b = _binding(kf, cont.id)
+        if b is None:
+            raise Unsupported(f"{kf.qualname}: `{cont.id}` has no single binding")
+        f, v, _ = b
+        if isinstance(v, ast.DictComp) and len(v.generators) == 1:
+            g = v.generators[0]
+            d = _refs_in_document_order(f, g.iter)
+            idx = _enumerate_index_names([g])
+            if d is None or not (isinstance(v.value, ast.Name) and v.value.id in idx and isinstance(g.target, ast.Tuple) and len(g.target.elts) == 2 and isinstance(g.target.elts[1], ast.Name) and _is_refname_of(v.key, g.target.elts[1].id)):
+                raise Unsupported(f"{f.module.site(v)}: rank table `{short(v, 60)}` not understood")
+            # a later item overwrites an earlier one with the same key
+            return ("last" if d == "fwd" else "first"), v
+        if (isinstance(v, ast.Dict) and not v.keys) or (isinstance(v, ast.Call) and dotted(v.func) == "dict" and not v.args and not v.keywords):
+            stores = []
+            for n in f.local_nodes():
+                if isinstance(n, ast.Call) and isinstance(n.func, ast.Attribute) and _is_name(n.func.value, cont.id) and n.func.attr in ("setdefault", "update", "__setitem__"):
+                    stores.append(n)
+                if isinstance(n, ast.Assign) and any(isinstance(t, ast.Subscript) and _is_name(t.value, cont.id) for t in n.targets):
+                    stores.append(n)
+            if len(stores) != 1:
+                raise Unsupported(f"{f.qualname}: rank table `{cont.id}` has {len(stores)} writers")
+            st = stores[0]
+            loop = next((a for a in ancestors(st) if isinstance(a, ast.For)), None)
+            d = _refs_in_document_order(f, loop.iter) if loop is not None else None
+            if d is None:
+                raise Unsupported(f"{f.module.site(st)}: rank table is not filled in a loop over document.autofootnote_refs")
+            if isinstance(st, ast.Call) and st.func.attr == "setdefault":
+                keeps_first = True
+            elif isinstance(st, ast.Assign):
+                key_txt = unparse(st.targets[0].slice)
+                cfg = get_cfg(f)
+                keeps_first = any(isinstance(t, ast.Compare) and len(t.ops) == 1 and ((isinstance(t.ops[0], ast.NotIn) and pol) or (isinstance(t.ops[0], ast.In) and not pol)) and unparse(t.left) == key_txt and _is_name(t.comparators[0], cont.id) for t, pol in cfg.guards(cfg.stmt_of(st)))
+            else:
+                raise Unsupported(f"{f.module.site(st)}: rank table writer not understood")
+            return ("first" if keeps_first == (d == "fwd") else "last"), st
+        raise Unsupported(f"{f.module.site(v)}: rank table `{short(v, 50)}` not understood")
+    raise Unsupported(f"{kf.qualname}: rank expression `{short(e, 50)}` not understood")
+
+
+@rule("C11.R10")
+def r10_first_reference_order(corpus: Corpus, rep: Report, tier: str):
+    rep.rule("C11.R10", "SortFootnotes ranks an auto-numbered footnote by the position of its FIRST reference in document.autofootnote_refs")
+    sf = corpus.func(f"{TRANS}:SortFootnotes.apply")
+    n_ranked = 0
+    for sn, kexpr, _v in _sorter_model(sf):
+        if kexpr is None:
+            continue
+        kf = _key_function(sf, kexpr)
+        exprs = [kf.node.body] if kf.is_lambda else [n.value for n in kf.local_nodes() if isinstance(n, ast.Return) and n.value is not None]
+        flat: list[ast.expr] = []
+        while exprs:
+            e = exprs.pop()
+            if isinstance(e, ast.IfExp):
+                exprs += [e.body, e.orelse]
+            else:
+                flat.append(e)
+        for e in flat:
+            if isinstance(e, ast.Constant):
+                continue  # the rank of an unreferenced footnote
+            n_ranked += 1
+            which, construct = _occurrence_picked(kf, e)
+            key = f"{kf.fq}|rank of a referenced footnote|{short(e, 60)}"
+            site = kf.module.site(construct)
+            if which == "first":
+                rep.ok("C11.R10", key, site, "position of the first reference")
+            else:
+                rep.violation(
+                    "C11.R10",
+                    key,
+                    site,
+                    f"`{short(construct, 70)}` keeps the position of the LAST reference of a label that is referenced several times: in 'x[^a] y[^b] z[^a]' footnote b is numbered 1 and a 2, but auto-numbered footnotes are numbered in order of first reference",
+                )
+    if not n_ranked:
+        raise Unsupported("SortFootnotes key function has no rank expression")
+    rep.expect_min("C11.R10", 1, "the rank expression of SortFootnotes._sort_key")
+
+
 RULES = [
     r1_priorities_and_registration,
     r2_predicate_and_registries,
@@ -1241,6 +1593,7 @@ RULES = [
     r7_settings_plumbing,
     r8_total_order_key,
     r9_transition_placement,
+    r10_first_reference_order,
 ]
 
 
@@ -1298,7 +1651,7 @@ def mutants(corpus: Corpus):
     ref, dfn = base.func("DocutilsRenderer.render_footnote_ref"), base.func("DocutilsRenderer.render_footnote_reference")
     rif = find_node(ref, lambda n: isinstance(n, ast.Attribute) and n.attr in DIGIT_PREDICATES and isinstance(parent(n), ast.Call))
     other = "isdecimal" if rif is not None and rif.attr != "isdecimal" else "isdigit"
-    add("c11-ref-predicate-differs", "C11.R2", base, rif, f"{unparse(rif.value)}.{other}" if rif is not None else "", "manual/auto predicate", True)
+    add("c11-ref-predicate-differs", "C11.R2", base, rif, f"{unparse(rif.value)}.{other}" if rif is not None else "", "manual/auto predicate")
     dif = find_node(dfn, lambda n: isinstance(n, ast.If) and any(isinstance(x, ast.Attribute) and x.attr in DIGIT_PREDICATES for x in ast.walk(n.test)))
     add("c11-def-polarity-flipped", "C11.R2", base, dif.test if dif is not None else None, f"not {_seg(base, dif.test)}" if dif is not None else "", "render_footnote_reference|manual")
     n = find_node(dfn, lambda n: isinstance(n, ast.Attribute) and n.attr == "note_footnote")
@@ -1318,20 +1671,49 @@ def mutants(corpus: Corpus):
     dup = find_node(dfn, lambda n: isinstance(n, ast.If) and any(isinstance(x, ast.Compare) and isinstance(x.ops[0], (ast.In, ast.NotIn)) for x in ast.walk(n.test)))
     if dup is not None:
         ret = next((x for x in dup.body if isinstance(x, ast.Return)), None)
-        add("c11-duplicate-falls-through", "C11.R3", base, ret, "pass", "no registration", True)
+        add("c11-duplicate-falls-through", "C11.R3", base, ret, "pass", "no registration")
         w = next((x for x in dup.body if isinstance(x, ast.Expr) and "create_warning" in unparse(x)), None)
         add("c11-duplicate-silent", "C11.R3", base, w, "pass", "warnings")
         if w is not None:
             wt = kwarg(w.value, "wtype")
             add("c11-duplicate-warning-retyped", "C11.R3", base, wt, '"myst"', "warning type")
             add("c11-duplicate-warned-twice", "C11.R3", base, w, _seg(base, w) + "\n            " + _seg(base, w), "warnings")
-        # ---- R6 (fires on the pinned tree; the mutant moves the test to another flat table)
-        cmp_ = find_node(dfn, lambda n: isinstance(n, ast.Compare) and isinstance(n.ops[0], ast.In) and n in list(ast.walk(dup.test)))
-        if cmp_ is not None:
-            c = cmp_.comparators[0]
-            if isinstance(c, ast.Attribute):
-                alt = "ids" if c.attr != "ids" else "nameids"
-                add("c11-duplicate-test-other-flat-table", "C11.R6", base, c, f"{unparse(c.value)}.{alt}", alt)
+        # ---- R6
+        lab = next((unparse(x.left) for x in ast.walk(dup.test) if isinstance(x, ast.Compare) and isinstance(x.ops[0], ast.In)), "target")
+        # revert of fix 65fc250: the document-wide name table decides what a duplicate is
+        add("c11-revert-65fc250-duplicate-test-nameids", "C11.R6", base, dup.test, f"{lab} in self.document.nameids", "against document.nameids", True)
+        add("c11-duplicate-test-ids-table", "C11.R6", base, dup.test, f"{lab} in self.document.ids", "against document.ids")
+        reg = next((x for x in ast.walk(dup.test) if isinstance(x, ast.BinOp) and isinstance(x.op, ast.Add) and _doc_attr(x.left, "footnotes") and _doc_attr(x.right, "autofootnotes")), None)
+        if reg is not None:
+            add("c11-duplicate-test-manual-only", "C11.R6", base, reg, _seg(base, reg.left), "covers document.autofootnotes")
+            add("c11-duplicate-test-auto-only", "C11.R6", base, reg, _seg(base, reg.right), "covers document.footnotes")
+        else:
+            out.append(("c11-duplicate-test-manual-only", "duplicate test is not over footnotes + autofootnotes"))
+    # registration the duplicate test relies on moved behind the rendering of the body (class of seed out-c11/2)
+    body_with = find_stmt(dfn, lambda n: isinstance(n, ast.With) and "render_children" in unparse(n))
+    if body_with is not None:
+        ind = " " * body_with.col_offset
+        for mid, needle, exp in (
+            ("c11-autofootnote-registered-after-body", "note_autofootnote(", "auto|note_autofootnote(footnote) before the body"),
+            ("c11-footnote-registered-after-body", "note_footnote(", "manual|note_footnote(footnote) before the body"),
+        ):
+            st = find_stmt(dfn, lambda n, needle=needle: isinstance(n, ast.Expr) and isinstance(n.value, ast.Call) and needle in unparse(n.value) and n.lineno < body_with.lineno)
+            if st is None:
+                out.append((mid, "registry call before the body not found"))
+                continue
+            guard = next((a for a in ancestors(st) if isinstance(a, ast.If)), None)
+            cond = _seg(base, guard.test) if guard is not None else "True"
+            if guard is not None and st in guard.orelse:
+                cond = f"not {cond}"
+            tail = f"\n{ind}if {cond}:\n{ind}    {_seg(base, st)}"
+            src = splice(base.src, body_with, _seg(base, body_with) + tail)  # later in the file first
+            src = splice(src, st, "pass")
+            out.append(Mutant(mid, "C11.R6", base.rel, src, expect=exp))
+        st = find_stmt(dfn, lambda n: isinstance(n, ast.Expr) and "['names'].append" in unparse(n) and n.lineno < body_with.lineno)
+        if st is not None:
+            src = splice(base.src, body_with, _seg(base, body_with) + f"\n{ind}{_seg(base, st)}")
+            src = splice(src, st, "pass")
+            out.append(Mutant("c11-name-stored-after-body", "C11.R6", base.rel, src, expect="gets the label before the body"))
     # ---- R4
     cf = tm.func("CollectFootnotes.apply")
     try:
@@ -1340,7 +1722,7 @@ def mutants(corpus: Corpus):
         loop = None
     if loop is not None and len(loop.body) == 2:
         a, b = loop.body
-        add("c11-collector-attach-before-detach", "C11.R4", tm, loop, _seg(tm, loop).replace(_seg(tm, a), "\0").replace(_seg(tm, b), _seg(tm, a)).replace("\0", _seg(tm, b)), "detach before attach", True)
+        add("c11-collector-attach-before-detach", "C11.R4", tm, loop, _seg(tm, loop).replace(_seg(tm, a), "\0").replace(_seg(tm, b), _seg(tm, a)).replace("\0", _seg(tm, b)), "detach before attach")
         add("c11-collector-copy-not-move", "C11.R4", tm, a, "pass", "detach once")
         add("c11-collector-descending", "C11.R4", tm, loop.iter, _seg(tm, loop.iter)[:-1] + ", reverse=True)", "ascending")
         # loop indented under the transition test
@@ -1390,7 +1772,64 @@ def mutants(corpus: Corpus):
         st2 = find_stmt(fin, lambda n: isinstance(n, ast.Assign) and isinstance(n.targets[0], ast.Attribute) and n.targets[0].attr == "myst_footnote_transition")
         if st2 is not None:
             add("c11-transition-setting-only-with-slugs", "C11.R7", base, st2, "if self._heading_slugs:\n            " + _seg(base, st2).replace("\n", "\n    "), "myst_footnote_transition")
+    # ---- R4/R10: the sorter must permute the registry, ranked by first reference (classes of seeds out-c03/2, out-c11/1)
+    srt = find_stmt(sf, lambda n: isinstance(n, ast.Expr) and isinstance(n.value, ast.Call) and isinstance(n.value.func, ast.Attribute) and n.value.func.attr == "sort" and _doc_attr(n.value.func.value, "autofootnotes"))
+    if srt is not None and kwarg(srt.value, "key") is not None:
+        regx = unparse(srt.value.func.value)
+        k = unparse(kwarg(srt.value, "key"))
+        add("c11-sorter-drops-nameless", "C11.R4", tm, srt, f"{regx}[:] = sorted((node for node in {regx} if node['names']), key={k})", "sorts document.autofootnotes")
+        add("c11-sorter-drops-unreferenced", "C11.R4", tm, srt, f"{regx} = sorted([fn for fn in {regx} if fn['names'] and fn['names'][0] in ref_order], key={k})", "sorts document.autofootnotes")
+        add("c11-sorter-rebuilds-permutation", "C11.R4", tm, srt, f"{regx}[:] = sorted({regx}, key={k}, reverse=True)", "reverse")
+    else:
+        out.append(("c11-sorter-drops-nameless", "document.autofootnotes.sort(key=...) not found"))
+    lc = find_node(sf, lambda n: isinstance(n, ast.ListComp) and any(_doc_attr(x, "autofootnote_refs") for x in ast.walk(n)))
+    skf = tm.functions.get("SortFootnotes.apply._sort_key")
+    idx = find_node(skf, lambda n: isinstance(n, ast.Call) and isinstance(n.func, ast.Attribute) and n.func.attr == "index") if skf is not None else None
+    if lc is not None and idx is not None and len(lc.generators) == 1 and isinstance(lc.generators[0].target, ast.Name):
+        g = lc.generators[0]
+        v = g.target.id
+        conds = "".join(f" if {_seg(tm, c)}" for c in g.ifs)
+        tbl = unparse(idx.func.value)
+        lookup = f"{tbl}[{_seg(tm, idx.args[0])}]"
+        # later edit first (the key function follows the table)
+        src = splice(tm.src, idx, lookup)
+        src1 = splice(src, lc, "{" + f"{_seg(tm, lc.elt)}: _i for _i, {v} in enumerate({_seg(tm, g.iter)}){conds}" + "}")
+        out.append(Mutant("c11-rank-by-last-reference-dictcomp", "C11.R10", tm.rel, src1, expect="rank of a referenced footnote", canary=False))
+        lc_stmt = next((a for a in [lc, *ancestors(lc)] if isinstance(a, ast.stmt)), None)
+        ind = " " * lc_stmt.col_offset
+        loop_txt = f"{tbl}: dict = {{}}\n{ind}for _i, {v} in enumerate({_seg(tm, g.iter)}):\n{ind}    " + (f"if {' and '.join(_seg(tm, c) for c in g.ifs)}:\n{ind}        " if g.ifs else "") + f"{tbl}[{_seg(tm, lc.elt)}] = _i"
+        out.append(Mutant("c11-rank-by-last-reference-loop", "C11.R10", tm.rel, splice(src, lc_stmt, loop_txt), expect="rank of a referenced footnote"))
+        out.append(Mutant("c11-rank-from-reversed-references", "C11.R10", tm.rel, splice(tm.src, g.iter, f"reversed({_seg(tm, g.iter)})"), expect="rank of a referenced footnote"))
+    else:
+        out.append(("c11-rank-by-last-reference-dictcomp", "label list / .index() lookup of SortFootnotes not found"))
+    # collector: a definition skipped while gathering (class of seed out-c03/2 on the collector side)
+    if gather is not None:
+        first = gather.body[0]
+        gi = " " * first.col_offset
+        tv = unparse(gather.target)
+        add("c11-collector-skips-unreferenced", "C11.R4", tm, first, f"if not {tv}['backrefs']:\n{gi}    continue\n{gi}{_seg(tm, first)}", "gathers every footnote")
+    # collector gated by the transition setting through an early return (class of seed out-c11/3)
+    if loop is not None:
+        li = " " * loop.col_offset
+        add("c11-collector-returns-early-without-transition", "C11.R4", tm, loop, f"if not self.document.settings.myst_footnote_transition:\n{li}    return\n{li}{_seg(tm, loop)}", "move loop|guard")
     # ---- R8
+    ck = tm.functions.get("CollectFootnotes.apply._sort_key")
+    if ck is not None:
+        rets = sorted([n for n in ck.local_nodes() if isinstance(n, ast.Return) and isinstance(n.value, ast.Tuple)], key=lambda n: n.lineno)
+        conv = [r for r in rets if any(isinstance(x, ast.Call) and dotted(x.func) == "int" for x in ast.walk(r.value))]
+        rest = [r for r in rets if r not in conv]
+        if len(conv) == 1 and len(rest) == 1:
+            c_int = next(x for x in ast.walk(conv[0].value) if isinstance(x, ast.Call) and dotted(x.func) == "int")
+            s_lab = next((x for x in rest[0].value.elts if isinstance(x, ast.Name)), None)
+            if s_lab is not None:
+                # revert of fix 660401f (later edit first)
+                a_, b_ = sorted([(conv[0].value, _seg(tm, c_int)), (rest[0].value, s_lab.id)], key=lambda t: -t[0].lineno)
+                src = splice(splice(tm.src, a_[0], a_[1]), b_[0], b_[1])
+                out.append(Mutant("c11-revert-660401f-collector-key-int-or-str", "C11.R8", tm.rel, src, expect="CollectFootnotes.apply._sort_key", canary=True))
+            else:
+                out.append(("c11-revert-660401f-collector-key-int-or-str", "fallback return has no label element"))
+        else:
+            out.append(("c11-revert-660401f-collector-key-int-or-str", "collector key no longer returns two tuples"))
     sk = tm.functions.get("SortFootnotes.apply._sort_key")
     if sk is not None:
         n = find_node(sk, lambda n: isinstance(n, ast.Return) and isinstance(n.value, ast.Constant))
@@ -1399,6 +1838,9 @@ def mutants(corpus: Corpus):
     if tif is not None:
         n = next((x for x in ast.walk(tif.test) if isinstance(x, ast.UnaryOp) and isinstance(x.op, ast.Not) and "children" in unparse(x)), None)
         add("c11-transition-may-open-document", "C11.R9", tm, n, "True", "not the first element")
+        # revert of fix f4651d8: nothing looks at a transition that already ends the document
+        n = next((x for x in ast.walk(tif.test) if isinstance(x, ast.UnaryOp) and isinstance(x.op, ast.Not) and "transition" in unparse(x.operand).lower() and "children" not in unparse(x)), None)
+        add("c11-revert-f4651d8-transition-after-transition", "C11.R9", tm, n, "True", "not adjacent to an existing transition", True)
     return out
 
 
